@@ -42,6 +42,30 @@ CLAIMED = {
             "both engines are compared with the extracted model, d=1 with the univariate routines",
             "ndim kernels tied by correspondence; C warping-paths findings F21/F05c/F24 recorded",
             "Coq proof + correspondence"),
+    "C05": ("Coq theorems: the traceback modelled on dtw.best_path yields a contiguous unit-step path on finite (in-band) "
+            "cells whose cost, penalties included, equals the start cell's value; exact path comparison with "
+            "dtw.best_path from random start cells; every path returned by warping_path / warping_path_fast / "
+            "best_path_compact / customstart is validated by an implementation-independent checker (steps, band, "
+            "max_step, psi corners, cost == distance == model optimum)",
+            "C tracebacks tied by the validity checker only; psi-end/penalty traceback defects recorded (F28, F11, F29)",
+            "Coq proof (traceback cost) + correspondence + independent path checker"),
+    "C06": ("Coq theorems over the functions REGENERATED from dtw.py (_distance_matrix_length, _complete_block, "
+            "distance_matrix_python, distance_array_index): advertised length = number of selected pairs, compact result "
+            "= map dist over pairs in row-major order, condensed index addresses pair (min,max); C loops, square form, "
+            "only_triu and containers by correspondence",
+            "np.triu_indices / fancy indexing trusted; C loops by correspondence",
+            "Coq proof over translator output + correspondence"),
+    "C07": ("Coq theorems: the parallel loops' output slots are exactly 0..len-1 in row-major order, hence distinct, hence "
+            "any permutation of the cell writes (all thread counts / schedules / interleavings) equals the serial "
+            "result; private-clause completeness by computation over the table regenerated from dd_dtw_openmp.c; "
+            "parallel == serial replayed for 1..64 threads, all block forms, and the multiprocessing variants",
+            "partial: kernel re-entrancy, libgomp and Pool.map order are outside the model",
+            "Coq proof (permutation invariance) + regenerated OpenMP clause table + correspondence"),
+    "C08": ("Coq lemmas (partial): psi prologue and last-row psi scan of the four dtw_distance* instances stay inside the "
+            "2*length allocation, over size/index expressions regenerated from dd_dtw.c; band writes inside the row "
+            "buffer; all exported routines run under AddressSanitizer+UBSan with exact-size caller buffers",
+            "partial: only the rolling-buffer index arithmetic is proved, the rest is sanitizer correspondence",
+            "Coq proof over translator output (partial) + ASan/UBSan correspondence"),
 }
 
 
